@@ -485,6 +485,8 @@ class Report:
             "wall_s": round(time.time() - self.t0, 2),
             "violations": len(self.violations),
         }
+        if os.environ.get("VERIF_NO_EVIDENCE"):
+            return  # development aid (mutation runs against scratch copies must not overwrite evidence)
         os.makedirs(os.path.join(ROOT, "evidence"), exist_ok=True)
         with open(os.path.join(ROOT, "evidence", self.prop + ".json"), "w") as f:
             json.dump(_jsonable(ev), f, indent=1)
